@@ -8,6 +8,7 @@ import (
 	"fmt"
 	"os"
 	"reflect"
+	"strings"
 
 	"github.com/vimeo/dials/ptrify"
 	"github.com/vimeo/dials/transform"
@@ -29,7 +30,7 @@ type input struct {
 func opts(in input, chain []xf.M) rty.XOpts {
 	o := rty.XOpts{MaxDepth: in.Depth, MaxWidth: in.Width, AliasFamilies: xf.AliasFamilies(chain), AliasNum: 1, AliasDen: 4,
 		NamedSome: true, Sets: true, TextU: true, Embedded: true, StructElem: true, Maps: true, Slices: true, Arrays: true,
-		UserPtrs: true, DialsTags: true, Desc: true, PoolNames: true}
+		UserPtrs: true, DialsTags: true, Desc: true, PoolNames: true, ElemUnexported: true}
 	if len(o.AliasFamilies) == 0 {
 		o.AliasFamilies = []string{"dials"}
 		o.AliasDen = 8
@@ -65,6 +66,9 @@ func run(raw json.RawMessage) driver.Result {
 		mode = 1
 	}
 	if tto.Class() != "ok" {
+		if os.Getenv("C10_DEBUG") != "" {
+			fmt.Fprintf(os.Stderr, "T%s raw=%v chain=%s: %s %v\n", tto.Class(), in.Raw, xf.ChainKinds(chain), tto.PanicMsg, tto.Err)
+		}
 		return driver.Result{
 			Coq: fmt.Sprintf("XCase %d %s %s %s [] [] (Err 0)", mode, rty.TyTerm(t), xf.ChainTerm(chain), xf.TypeOutcome(tto)),
 			Kind: in.K + "-notranslate", Tags: tags,
@@ -83,6 +87,15 @@ func run(raw json.RawMessage) driver.Result {
 	if in.Raw {
 		tags = append(tags, "raw-type")
 	}
+	if res.Panicked && os.Getenv("C10_DEBUG") != "" {
+		fmt.Fprintf(os.Stderr, "PANIC raw=%v chain=%s: %s INPUT %s\n", in.Raw, xf.ChainKinds(chain), res.PanicMsg, string(raw))
+	}
+	if tto.Panicked && os.Getenv("C10_DEBUG") != "" {
+		fmt.Fprintf(os.Stderr, "TPANIC raw=%v chain=%s: %s\n", in.Raw, xf.ChainKinds(chain), tto.PanicMsg)
+	}
+	if res.Panicked {
+		tags = append(tags, "panic: "+trim(res.PanicMsg, in.Raw))
+	}
 	return driver.Result{
 		Coq: fmt.Sprintf("XCase %d %s %s %s %s %s %s", mode, rty.TyTerm(t), xf.ChainTerm(chain), xf.TypeOutcome(tto),
 			rty.StructFieldsTerm(f.V), f.Oracle, xf.ValueOutcome(res)),
@@ -90,6 +103,22 @@ func run(raw json.RawMessage) driver.Result {
 		Nontrivial: xf.HasFanout(chain) && len(f.Depths) >= 2,
 		Tags:       tags,
 	}
+}
+
+// trim shortens a panic message to its class for the distribution
+func trim(s string, raw bool) string {
+	for _, cut := range []string{" of type ", ": ", " ["} {
+		if i := strings.Index(s, cut); i > 0 {
+			s = s[:i]
+		}
+	}
+	if len(s) > 60 {
+		s = s[:60]
+	}
+	if raw {
+		s += " (raw type)"
+	}
+	return s
 }
 
 func min(a, b int) int {
